@@ -289,7 +289,7 @@ theorem cex_tab : push ['/'] [97, 9, 98] = "/ab".toList := by decide +kernel
 /-- an empty first value leaves no trace: `/` + "" + "a" gives `/a`, not `//a` -/
 theorem cex_empty_first : push (push ['/'] []) [97] = "/a".toList := by decide +kernel
 /-- `.` TAB `.` removes the PREVIOUS segment -/
-theorem cex_tab_dotdot : push "/pre/x".toList [0x2E, 9, 0x2E] = "/pre".toList := by decide +kernel
+theorem cex_tab_dotdot : push "/pre/x".toList [0x2E, 9, 0x2E] = "/pre/".toList := by decide +kernel
 
 /-! ### 11 non-vacuity -/
 
